@@ -13,6 +13,17 @@
 //!     then the same dump as above.
 //! Output (both): `(ok (txns <txn>...) (text <enc>) (reparse (ok <entry>...) | (err <enc>)))`
 //!              | `(err <stage> <kind> <enc message>)` | `(panic <enc message>)`
+//! `hx c15 viseca` — one case per line `<path-enc> <config-yaml-enc> <statement-enc>`: the statement text goes through
+//!     the REAL `viseca::parser::Parser` (`parse_entry` until `None` / error) and, separately, through the real
+//!     `import::import(.., Format::Viseca, ..)` + `to_double_entry`:
+//!     `(ok (cfg <entry>) (parse <P>) (import <I>) (pats (<pattern> 0|1)...) (table <tab>...))` with
+//!     `<P>` = `(ok <e>...)` | `(err <Kind> <site-enc> <e>...)` (the entries read before the error),
+//!     `<e>` = `(e LINE (d Y M D) (d Y M D) <payee> (dec N M S) <category> <opt (amt N M S <ccy>)>
+//!              <opt (x (dec N M S) (d Y M D) (amt N M S <ccy>))> <opt (f (dec N M S) (amt N M S <ccy>))>)`,
+//!     `<I>` = `(ok <txn-tree>...)` | `(err <stage> <Kind> <site-enc>)`; `<site>` of a `Viseca` error is the head of the
+//!     message and its ` @ line N` tail (the quoted detail in between dropped), `~` for the other kinds;
+//!     `(cfg ..)` / `(table ..)` in the forms of `hx c17` (regex verdicts for the configured patterns on every text the
+//!     rewrite rules can look at: payees and categories of the parsed entries, rule payees, captured payees).
 use std::collections::HashMap;
 use std::io::{BufRead, Write};
 use std::path::Path;
@@ -287,6 +298,160 @@ fn txn_case(line: &str) -> String {
     }
 }
 
+
+// ------------------------------------------------------------------------------------------------
+// Viseca: the real parser and the real importer on statement text
+
+fn dec_sx(d: &Decimal) -> String {
+    format!("(dec {})", tree::decimal(d))
+}
+
+/// head of a `Parser::err` message + its ` @ line N` tail
+fn viseca_site(e: &ImportError) -> String {
+    match e {
+        ImportError::Viseca(m) => {
+            let tail = m.rfind(" @ line ").map(|i| &m[i..]).unwrap_or("");
+            let head = ["unsupported entry line", "invalid date", "category line not found", "exchange rate line not found",
+                "Exchange rate ... line expected", "Processing fee line not found", "Processing fee ... line expected",
+                "internal error: exchange should set aside with spent"]
+                .iter()
+                .find(|h| m.starts_with(**h))
+                .copied()
+                .unwrap_or("?");
+            format!("{}{}", head, tail)
+        }
+        _ => String::new(),
+    }
+}
+
+fn viseca_case(ws: &[&str]) -> String {
+    use import::viseca::parser::Parser;
+    if ws.len() != 3 {
+        return "(bad-case)".to_string();
+    }
+    let (path, yaml, content) = match (sx::dec(ws[0]), sx::dec(ws[1]), sx::dec_bytes(ws[2])) {
+        (Some(a), Some(b), Some(c)) => (a, b, c),
+        _ => return "(bad-case)".to_string(),
+    };
+    let entry = match select_config(&yaml, &path) {
+        Ok(e) => e,
+        Err(m) => return m,
+    };
+    // 1. the parser alone
+    let mut parser = Parser::new(&content[..], entry.commodity.primary.clone());
+    let mut es: Vec<String> = Vec::new();
+    let mut hays: std::collections::BTreeSet<String> = std::collections::BTreeSet::new();
+    let mut perr: Option<ImportError> = None;
+    loop {
+        match parser.parse_entry() {
+            Ok(None) => break,
+            Ok(Some(e)) => {
+                hays.insert(e.payee.clone());
+                hays.insert(e.category.clone());
+                let amt = |v: &Decimal, c: &str| format!("(amt {} {})", tree::decimal(v), enc(c));
+                es.push(format!(
+                    "(e {} {} {} {} {} {} {} {} {})",
+                    e.line_count,
+                    tree::date(e.date),
+                    tree::date(e.effective_date),
+                    enc(&e.payee),
+                    dec_sx(&e.amount),
+                    enc(&e.category),
+                    tree::opt(e.spent.as_ref(), |s| amt(&s.value, &s.commodity)),
+                    tree::opt(e.exchange.as_ref(), |x| format!("(x {} {} {})", dec_sx(&x.rate), tree::date(x.rate_date), amt(&x.equivalent.value, &x.equivalent.commodity))),
+                    tree::opt(e.fee.as_ref(), |f| format!("(f {} {})", dec_sx(&f.percent), amt(&f.amount.value, &f.amount.commodity))),
+                ));
+            }
+            Err(e) => {
+                perr = Some(e);
+                break;
+            }
+        }
+    }
+    let parse = match &perr {
+        None => format!("(ok {})", es.join(" ")),
+        Some(e) => format!("(err {} {} {})", err_kind(e), enc(&viseca_site(e)), es.join(" ")),
+    };
+    // 2. the importer
+    let imp = match import::import(&content[..], Format::Viseca, &entry) {
+        Err(e) => format!("(err import {} {})", err_kind(&e), enc(&viseca_site(&e))),
+        Ok(xacts) => {
+            let mut trees = Vec::new();
+            let mut bad = None;
+            for x in &xacts {
+                match x.to_double_entry(&entry.account) {
+                    Ok(t) => trees.push(tree::txn(&t)),
+                    Err(e) => {
+                        bad = Some(format!("(err to_double_entry {} ~)", err_kind(&e)));
+                        break;
+                    }
+                }
+            }
+            bad.unwrap_or_else(|| format!("(ok {})", trees.join(" ")))
+        }
+    };
+    // 3. the regex crate's verdicts for the configured patterns
+    let mut pats: std::collections::BTreeSet<String> = std::collections::BTreeSet::new();
+    for r in &entry.rewrite {
+        let ms: Vec<&config::FieldMatcher> = match &r.matcher {
+            config::RewriteMatcher::Or(v) => v.iter().collect(),
+            config::RewriteMatcher::Field(m) => vec![m],
+        };
+        for m in ms {
+            for p in m.fields.values() {
+                pats.insert(p.clone());
+            }
+        }
+        if let Some(p) = &r.payee {
+            hays.insert(p.clone());
+        }
+    }
+    let compiled: Vec<(String, Option<regex::Regex>)> = pats.iter().map(|p| (p.clone(), import::extract::regex_matcher(p).ok())).collect();
+    let mut table: std::collections::BTreeMap<(String, String), Option<(Option<String>, Option<String>)>> = std::collections::BTreeMap::new();
+    loop {
+        let mut new: Vec<String> = Vec::new();
+        for (p, re) in &compiled {
+            let Some(re) = re else { continue };
+            for h in &hays {
+                let key = (p.clone(), h.clone());
+                if table.contains_key(&key) {
+                    continue;
+                }
+                let v = re.captures(h).map(|c| {
+                    let m: import::extract::Matched = c.into();
+                    (m.payee.map(str::to_string), m.code.map(str::to_string))
+                });
+                if let Some((Some(py), _)) = &v {
+                    if !hays.contains(py) {
+                        new.push(py.clone());
+                    }
+                }
+                table.insert(key, v);
+            }
+        }
+        if new.is_empty() || hays.len() > 400 {
+            break;
+        }
+        hays.extend(new);
+    }
+    let tab: Vec<String> = table
+        .iter()
+        .map(|((p, h), v)| match v {
+            None => format!("({} {} n)", enc(p), enc(h)),
+            Some((py, cd)) => format!("({} {} (m {} {}))", enc(p), enc(h), tree::opt(py.as_ref(), |s| enc(s)), tree::opt(cd.as_ref(), |s| enc(s))),
+        })
+        .collect();
+    let pat_sx: Vec<String> = compiled.iter().map(|(p, re)| format!("({} {})", enc(p), re.is_some() as u8)).collect();
+    format!(
+        "(ok (cfg {}) (parse {}) (import {}) (pats {}) (table {}))",
+        crate::c17::entry_sx(&entry),
+        parse,
+        imp,
+        pat_sx.join(" "),
+        tab.join(" ")
+    )
+}
+
 pub fn run(args: &[String], out: &mut dyn Write) -> i32 {
     let mode = args.first().map(|s| s.as_str()).unwrap_or("");
     let stdin = std::io::stdin();
@@ -300,6 +465,10 @@ pub fn run(args: &[String], out: &mut dyn Write) -> i32 {
                 import_case(&ws)
             }
             "txn" => txn_case(&l2),
+            "viseca" => {
+                let ws: Vec<&str> = l2.split(' ').filter(|w| !w.is_empty()).collect();
+                viseca_case(&ws)
+            }
             _ => "(bad-mode)".to_string(),
         });
         match rec {
